@@ -104,6 +104,8 @@ deriving DecidableEq, Repr
 structure Layer where
   digest : DRef
   size : Nat
+  media : Nat      -- the descriptor's `mediaType`, as an index into the alphabet of media types the driver serves
+                   -- (PullModel never looks at it; it is part of "the manifest the registry served")
 deriving DecidableEq, Repr
 
 structure Manifest where
@@ -732,6 +734,28 @@ def pull (cfg : Cfg) (hash : Bytes → Digest) (name : Name) (reg : Registry) (s
           if cfg.noPrune || deleteMap.isEmpty then st2.blobs
           else removeBlobs (usedRefs mans) deleteMap st2.blobs
         (.ok (), { st2 with manifests := mans, blobs := blobs' }, ⟨s.net, s.renamed⟩)
+
+/-! ## Histories of pulls
+
+One step = one call of `PullModel`: the name pulled, what the registry serves AT THAT TIME (a tag can be
+re-published between two attempts: other config, other media types / sizes, layers added, removed, reordered)
+and the fault scripts of that attempt.  The store is threaded through. -/
+
+structure HStep where
+  name : Name
+  reg : Registry
+  sc : Scripts
+
+def runHistory (cfg : Cfg) (hash : Bytes → Digest) : List HStep → Store → List (Outcome × Store × Log)
+  | [], _ => []
+  | s :: rest, st =>
+    let r := pull cfg hash s.name s.reg s.sc st
+    r :: runHistory cfg hash rest r.2.1
+
+/-- the store a history ends in -/
+def finalStore (cfg : Cfg) (hash : Bytes → Digest) : List HStep → Store → Store
+  | [], st => st
+  | s :: rest, st => finalStore cfg hash rest (pull cfg hash s.name s.reg s.sc st).2.1
 
 /-! ## Two overlapping pulls that share a layer (`blobDownloadManager`)
 
